@@ -4,9 +4,11 @@ import (
 	"bytes"
 	"encoding/json"
 	"fmt"
+	xargon2 "golang.org/x/crypto/argon2"
 	"os"
 	"os/exec"
 	"reflect"
+	"runtime"
 	"strings"
 
 	crypthash "github.com/sergeymakinen/go-crypt/hash"
@@ -76,6 +78,37 @@ func corrRace(prop, outDir string, seed uint64, tier string) *report {
 		if k == 0 {
 			rep.sample(map[string]interface{}{"configs": rr.Configs[:minInt(6, len(rr.Configs))], "calls": rr.Calls, "race_reports": races})
 		}
+	}
+	if prop == "C09" {
+		// "equals the sequential RFC 9106 evaluation": multi-lane keys, under several GOMAXPROCS settings, against
+		// golang.org/x/crypto/argon2 (independent implementation; version 0x13, Argon2i / Argon2id) -- every lane count
+		// 2..12 and a few large ones, memories that are and are not multiples of 4*lanes
+		lr := newRng(seed ^ 0xC09)
+		oldProcs := runtime.GOMAXPROCS(0)
+		for _, p := range []uint8{2, 3, 4, 5, 6, 7, 8, 9, 10, 11, 12, 16, 17, 31, 33, 64} {
+			for mi, m := range []uint32{8 * uint32(p), 8*uint32(p) + 5, 12*uint32(p) + 1, 16 * uint32(p), 64 * uint32(p), 1024 + uint32(p)} {
+				if p > 12 && mi > 2 {
+					continue
+				}
+				pw, salt := lr.bytes(lr.intn(16)), lr.bytes(8+lr.intn(8))
+				t := uint32(1 + (mi+int(p))%2)
+				wantI := xargon2.Key(pw, salt, t, m, p, 32)
+				wantID := xargon2.IDKey(pw, salt, t, m, p, 32)
+				for _, procs := range []int{1, 2, 5, 16} {
+					runtime.GOMAXPROCS(procs)
+					gotI := a2Key(a2cfg{1, 0x13, pw, salt, t, m, 32, p})
+					gotID := a2Key(a2cfg{2, 0x13, pw, salt, t, m, 32, p})
+					if !bytes.Equal(gotI, wantI) || !bytes.Equal(gotID, wantID) {
+						rep.fail(map[string]interface{}{"lanes": p, "memory": m, "time": t, "GOMAXPROCS": procs, "password_hex": hx(pw), "salt_hex": hx(salt)},
+							fmt.Sprintf("argon2i %x / argon2id %x (x/crypto/argon2)", wantI, wantID), fmt.Sprintf("argon2i %x / argon2id %x", gotI, gotID),
+							"a multi-lane key differs from the sequential RFC 9106 evaluation")
+					}
+					rep.count(fmt.Sprint("rfc", p, m, procs), true)
+					rep.bump("multilane_keys_vs_xcrypto")
+				}
+			}
+		}
+		runtime.GOMAXPROCS(oldProcs)
 	}
 	if prop == "C08" {
 		// deterministic tie of the step model: the value getTypeInfo returns never aliases the cached object
